@@ -312,15 +312,16 @@ def build(t):
 
 
 # ------------------------------------------------------------------ reference (declarative, byte offsets)
-def reference(B):
+def reference(B, shift=0):
+    """shift: byte offset by which the whole body was moved (edit history: two nops prepended)"""
     t, q, uoff = B.t, B.q, B.uoff
     n = len(t.body)
     R = Built()
     targets = []         # z3 byte offsets that must begin a block
     succ = {}            # body ins index -> list of z3 byte offsets (expected successor targets), None = falls through
     for i, k in enumerate(t.body):
-        cur = 2 * uoff[i]
-        nxt = 2 * (uoff[i] + KINDS[k])
+        cur = 2 * uoff[i] + shift
+        nxt = 2 * (uoff[i] + KINDS[k]) + shift
         if k in ('goto', 'goto16', 'goto32'):
             tg = 2 * q('b%d' % i) + cur
             targets.append(tg)
@@ -555,7 +556,7 @@ def job(jc, spec):
     shift = 4 if edit else 0
     dex, analysis = setup()
     B = build(t)
-    R = reference(B)
+    R = reference(B, shift)
     hook.ZL.value = int.from_bytes(B.blob[8:12], 'little')
     eng = jc.new_engine(pre=B.pre)
     import time as _time
@@ -601,7 +602,7 @@ def job(jc, spec):
             only_last = all(x[1] not in BRANCH_OPS for b in blocks for x in b['ins'][:-1])
             obs['only the last instruction of a block branches'] = z3.BoolVal(only_last)
         elif which == 'C11':
-            idx_of_off = {2 * u: i for i, u in enumerate(B.uoff)}
+            idx_of_off = {2 * u + shift: i for i, u in enumerate(B.uoff)}
             fathers_expected = {i: [] for i in range(len(blocks))}
             for bi, b in enumerate(blocks):
                 lo = b['ins'][-1][0]
@@ -698,7 +699,7 @@ def run(ctx, which):
     cases = [build(t).blob.hex() for t in ts[:8]]
     ctx.diff_unhooked(mod, cases)
     jobs = [(which, t) for t in ts]
-    if which == 'C40':
+    if which in ('C40', 'C10', 'C11'):
         # the same templates once more with an edit between two analyses (templates without try items: set_instructions
         # does not move try ranges, so a shifted method with tries is not well formed)
         jobs += [(which, t, 'edit') for t in ts if not t.tries]
